@@ -133,9 +133,13 @@ func concRound(tr interface{ Emit(map[string]any) }, round, g, upd, n, gens, siz
 				if r >= 85 {
 					// direct use of the list API: snapshot, then mark an arbitrary (possibly stale) element
 					nip, _ := netip.AddrFromSlice(ip)
-					s := inner.SnapshotForClientIP(nip)
-					if len(s) > 0 {
-						inner.MarkUsedByClientIP(s[lr.Intn(len(s))], nip)
+					if pi := guard(func() {
+						s := inner.SnapshotForClientIP(nip)
+						if len(s) > 0 {
+							inner.MarkUsedByClientIP(s[lr.Intn(len(s))], nip)
+						}
+					}); pi != nil {
+						buf = append(buf, cev{cl.stamp(), 2, ev{"ev": "CPanic", "g": gi + 1, "where": pi.Where, "msg": pi.Msg}})
 					}
 					continue
 				}
@@ -162,14 +166,20 @@ func concRound(tr interface{ Emit(map[string]any) }, round, g, upd, n, gens, siz
 					b = validStream(k.key, i, nil, lr)
 					b[saltSizes[k.op.Cls]+2+lr.Intn(tagSize)] ^= 1 << lr.Intn(8)
 				}
-				id, _, err := auth(&memConn{r: bytes.NewReader(b), ip: ip})
-				st, name := "OK", 0
-				if err != nil {
-					st = err.Status
-				} else {
-					name = nameOfID(id)
+				st, name := "PANIC", 0
+				pi := guard(func() {
+					id, _, err := auth(&memConn{r: bytes.NewReader(b), ip: ip})
+					if err != nil {
+						st = err.Status
+					} else {
+						st, name = "OK", nameOfID(id)
+					}
+				})
+				re := ev{"ev": "CResult", "g": gi + 1, "op": op, "name": name, "st": st}
+				if pi != nil {
+					re["where"], re["msg"] = pi.Where, pi.Msg
 				}
-				buf = append(buf, cev{cl.stamp(), 2, ev{"ev": "CResult", "g": gi + 1, "op": op, "name": name, "st": st}})
+				buf = append(buf, cev{cl.stamp(), 2, re})
 			}
 			bufs[gi] = buf
 			atomic.AddInt32(&finished, 1)
@@ -185,7 +195,9 @@ func concRound(tr interface{ Emit(map[string]any) }, round, g, upd, n, gens, siz
 			for k := 1 + u; k <= gens && int(atomic.LoadInt32(&finished)) < g; k += upd {
 				time.Sleep(time.Duration(200+lr.Intn(pace)) * time.Microsecond)
 				buf = append(buf, cev{time.Since(base).Nanoseconds(), 0, ev{"ev": "UpdCall", "k": k}})
-				inner.Update(lists[k])
+				if pi := guard(func() { inner.Update(lists[k]) }); pi != nil {
+					buf = append(buf, cev{time.Since(base).Nanoseconds(), 1, ev{"ev": "CPanic", "g": 0, "where": pi.Where, "msg": pi.Msg}})
+				}
 				buf = append(buf, cev{time.Since(base).Nanoseconds(), 1, ev{"ev": "UpdRet", "k": k}})
 			}
 			bufs[g+u] = buf
